@@ -478,6 +478,32 @@ theorem C17_total_wait_documented (R oz) (c : Cfg) (script cancelAt)
   have h3 : (10 : Int) * (validate Mcp.Gen.retryLimits c).maxBackoff ≤ 10 * (5 * 60 * 1000000000) := by omega
   omega
 
+private theorem scaled_mono (a : Int) (n : Int) (d : Nat) (k : Nat) (ha : 0 ≤ a) (hd : 0 < d) (hnd : (d : Int) ≤ n) :
+    a * n ^ k / (d : Int) ^ k ≤ a * n ^ (k + 1) / (d : Int) ^ (k + 1) := by
+  have hdpos : (0 : Int) < d := by omega
+  have hb : (0 : Int) < (d : Int) ^ k := Int.pow_pos hdpos
+  have hn : 0 ≤ n := by omega
+  have hx : 0 ≤ a * n ^ k := Int.mul_nonneg ha (Int.pow_nonneg hn)
+  have e1 : a * n ^ k / (d : Int) ^ k = (a * n ^ k * d) / ((d : Int) ^ k * d) :=
+    (Int.mul_ediv_mul_of_pos_left _ _ hdpos).symm
+  have e2 : a * n ^ (k + 1) = a * n ^ k * n := by rw [Int.pow_succ, Int.mul_assoc]
+  have e3 : (d : Int) ^ (k + 1) = (d : Int) ^ k * d := Int.pow_succ _ _
+  rw [e1, e2, e3]
+  exact Int.ediv_le_ediv (Int.mul_pos hb hdpos) (Int.mul_le_mul_of_nonneg_left hnd hx)
+
+/-- With a factor of at least 1 the waits never shrink: each wait is at least as long as the one before it (they grow
+    until the cap and stay there), for every script and cancellation instant — on the code as it is now. -/
+theorem C17_waits_nondecreasing (R) (c : Cfg) (script cancelAt) (n : Int) (d : Nat)
+    (hf : c.factor = .q n d) (hd : 0 < d) (hnd : (d : Int) ≤ n) (hi : 0 ≤ c.initial) (hmb : 0 ≤ c.maxBackoff)
+    (k : Nat) (hk : k + 1 < (execute R Mcp.Gen.retryOverflowZero (some c) script cancelAt).waits.length) :
+    (execute R Mcp.Gen.retryOverflowZero (some c) script cancelAt).waits[k] ≤
+      (execute R Mcp.Gen.retryOverflowZero (some c) script cancelAt).waits[k + 1] := by
+  have hn : 0 ≤ n := by omega
+  rw [C17_wait_k R c script cancelAt n d hf hn hi hmb k (by omega),
+    C17_wait_k R c script cancelAt n d hf hn hi hmb (k + 1) hk]
+  have := scaled_mono c.initial n d k hi hd hnd
+  omega
+
 /-- non-vacuity: a run that really sleeps three capped waits (100 ms, 200 ms, then the 300 ms cap). -/
 example : (execute (fun _ => true) false (some ⟨3, 100000000, .q 2 1, 300000000⟩)
     (fun _ => some []) none).waits = [100000000, 200000000, 300000000] := by decide
